@@ -1062,6 +1062,8 @@ class Models:
             n = M.as_slice(c.I, c.st, c.args[1])
             out = []
             nb = M.const_bytes(n)
+            if nb is not None:
+                c.I.events.append(('cmplit', bytes(nb), True))
             if nb is not None and len(nb) <= 6 and s.elem[0] == 'bytes':
                 # exact case split: too short | first differing position | all equal
                 for s2 in c.I.assume(c.st.copy(), ('cmp', 'lt', s.len, n.len), True):
@@ -1834,6 +1836,8 @@ class Models:
         cb, other = self.const_bytes(b), a
         if cb is None:
             cb, other = self.const_bytes(a), b
+        if cb is not None:
+            c.I.events.append(('cmplit', bytes(cb), exact))
         if cb is not None and len(cb) <= 6 and other is not None and other.elem[0] == 'bytes':
             for s2 in c.I.assume(c.st.copy(), ('cmp', 'ne', a.len, b.len), True):
                 out.append((s2, VBool(False)))
